@@ -105,6 +105,12 @@ def build(ctx):
                      (["d1", "0", "+", "d", "10"], "..+.."), (["a", "b", "c", "+", "ab", "c", "+", "a", "bc"], "...+..+..")):
         rnd.append({"seq": list(sq_), "sst": st_})
     batches["random"] = [(rq, c) for c in rnd for rq in case_requests(rng, c["seq"], c["sst"])]
+    # more than 256 strands (counts beyond the small integers CPython shares): the plain-list generators only
+    many = []
+    for s in ("+".join(["(."] + [".."] * 258 + [".)"]), "+".join(["."] * 257), "+".join(["()"] * 300)):
+        many.append({"seq": gs.seq_for(rng, s, names=("a", "b")), "sst": s})
+    batches["many-strands"] = [(rq, c) for c in many for rq in case_requests(rng, c["seq"], c["sst"], objects=False, explicit=False)]
+    build.many = many
     # outside the quantifier (correspondence of the model only): empty strands, ill-formed and misaligned input
     odd = []
     pool = small if quick else small[::3]
@@ -172,7 +178,7 @@ def history_witnesses(diffs):
 def run(ctx):
     res = prove(ctx)
     runner = ensure_model_runner()
-    diffs, diff_cases = [], []
+    diffs, diff_cases, direct = [], [], []
     small, rnd = [], []
     if runner.ok:
         batches, small, rnd = build(ctx)
@@ -223,6 +229,21 @@ def run(ctx):
             sq_ = ["+" if x == "+" else rng.choice("ACGT") for x in c_["sst"]]
             sreqs.append(("rotate_complex_db", [sq_, list(c_["sst"])]))
         diffs += correspond(ctx, "string-arguments", sreqs, impl_reqs=[("rotate_complex_db_str", r[1]) for r in sreqs])
+        # the object's generators after a consumed split() (which works on the object's own tables): direct statement
+        from common import run_impl as _ri2, Err as _Err2
+        spl = []
+        dpool = [c for c in small if "+" in c["sst"] and len(c["sst"]) <= 8] + \
+                [{"seq": gs.seq_for(rng, s_, names=("a", "b", "x")), "sst": s_} for s_ in ("(.+(.+)+.)", "..+((+))", "((+..+))", "(+)+(+)", ".+(+)")]
+        for c_ in rng.sample(dpool, min(len(dpool), 300 if ctx.tier == "quick" else 3000)) + dpool[-5:]:
+            n_ = c_["sst"].count("+") + 1
+            spl.append(("c03_fresh_compare", [list(c_["seq"]), list(c_["sst"]), [["split"], ["pair_table"], ["rotate_pt"], ["rotate"],
+                                                                                ["get_paired_loc", [rng.randrange(n_), 0]], ["rotate_pt_t", n_ + 1],
+                                                                                ["set_turns", 1], ["split"], ["rotate_pt"], ["pair_table"]]]))
+        for rq, r in zip(spl, _ri2(spl)):
+            if isinstance(r, _Err2) or r:
+                direct.append({"key": {"seq": rq[1][0], "struct": "".join(rq[1][1]), "ops": rq[1][2]}, "input": {"history": rq[1]},
+                               "what": str(r), "snippet": f"# harness op c03_fresh_compare {rq[1]!r} (harness/impl/views.py)"})
+        ctx.cov["correspondence"]["generators-after-split(impl)"] = {"cases": len(spl), "failures": len(direct)}
     ctx.cov["rule"] = ("every well-formed structure with non-empty strands up to the tier's length bound (8 quick / 10 "
                        "thorough) with generated domain content, random structures up to 60 strands / depth 100, single "
                        "strands, disconnected and rotationally symmetric complexes, each through rotate_complex_once, "
@@ -256,15 +277,19 @@ def run(ctx):
             except Exception:
                 pass
             cases.append(c)
-        cases += small + rnd
+        cases = getattr(build, "many", [])[:2] + cases + small + rnd
         out = run_oracle("c07.py", {"cases": cases, "max": 20})
         found = []
         for f in out["failures"][:10]:
             c = {"seq": f["seq"], "sst": f["sst"]}
             found.append({"key": {"sst": f["sst"], "seq": f["seq"]}, "input": c, "what": f["what"],
                           "snippet": snippet(c)})
-        return pre + found
+        return pre + direct + found
 
+    if direct and res["ok"] and runner.ok and not diffs:
+        for f in direct[:10]:
+            ctx.violation("counterexample", f)
+        return
     conclude(ctx, res, runner, diffs, search)
 
 
